@@ -6,6 +6,7 @@
    real stack types driven through the verif hook; stream fp: peak VM footprint at n and 8n). *)
 From Coq Require Import List ZArith Bool.
 From Verif Require Import vm.Stack vm.StackProofs c20.Frames c20.FramesProofs.
+From Verif Require c20.EVM c20.EVMProofs gen.GenEvmForms c20.EVMFormsProofs.
 From Verif Require c01vm.Syntax c01vm.Code c01vm.VM c01vm.Compile c20.AbsVM c20.AbsVMProofs c20.VMForms c20.VMFormsProofs.
 Import ListNotations.
 Open Scope Z_scope.
@@ -148,6 +149,46 @@ Print Assumptions C20_vm_reduce_bounded_partial.
 Theorem C20_vm_limit_shape_bounded_partial : VMFormsProofs.bounded_by VMForms.f_limit_shape 22.
 Proof. exact VMFormsProofs.vm_limit_shape_bounded. Qed.
 Print Assumptions C20_vm_limit_shape_bounded_partial.
+
+(* --- 5. the forms that need calls: the ERASED VM on the code the current compiler emits --------- *)
+(* c20/EVM.v: execute.go's Next loop with all JSON values forgotten (array stacks of vm/Stack.v, frames of
+   c20/Frames.v, closures, forks with save/restore, env.values, offset; data-dependent choices are
+   nondeterministic).  gen/GenEvmForms.v is regenerated from /repo at every run: the instruction lists of
+   range, while, until, repeat, recurse, limit, first, last, isempty, reduce, foreach, inputs and the
+   tail-recursive definitions (opjump and opcallrec shapes of optimizeTailRec).  The implementation's runs
+   are checked to be paths of this machine instruction by instruction (stream evmtrace). *)
+Theorem C20_evm_certify_sound_partial : forall code nvars fuel C, EVM.certify code nvars fuel = Some C ->
+  forall s, EVMProofs.ereach code (EVM.einit code nvars) s -> EVM.efp s <= C.
+Proof. exact EVMProofs.certify_sound. Qed.
+Print Assumptions C20_evm_certify_sound_partial.
+
+(* instance K = 1 of loop_bound for any deterministic resolution of the choices *)
+Theorem C20_evm_certify_loop_bound_partial : forall code nvars fuel C, EVM.certify code nvars fuel = Some C ->
+  forall (pick : EVM.est -> option EVM.est),
+  (forall s s', pick s = Some s' -> exists l, In (l, s') (EVM.estep code s)) ->
+  forall n s, iter EVM.est pick n (EVM.einit code nvars) = Some s -> EVM.efp s <= C.
+Proof. exact EVMProofs.certify_loop_bound. Qed.
+Print Assumptions C20_evm_certify_loop_bound_partial.
+
+(* every generated form: exists C, every reachable state (any input, any $n, any native results, any
+   number of Next calls) has len forks + len stack.data + len scopes.data + len values <= C *)
+Theorem C20_evm_forms_bounded_partial :
+  Forall (fun nc => EVMFormsProofs.evm_bounded (snd nc)) GenEvmForms.evm_forms.
+Proof. exact EVMFormsProofs.evm_forms_bounded. Qed.
+Print Assumptions C20_evm_forms_bounded_partial.
+
+(* the opcallrec + opscope step of this machine replaces the frame (Frames.tailcall_frame_reuse) *)
+Theorem C20_evm_tailcall_reuse_partial : forall code s t id cnt b s1 s2,
+  EVM.zget code (EVM.pc s) = Some (EVM.Ecallrec t) -> EVM.zget code t = Some (EVM.Escope id cnt) ->
+  EVM.pc s < EVM.zlen code -> t < EVM.zlen code ->
+  WF scope (EVM.sstk s) -> limit (EVM.sstk s) < index (EVM.sstk s) ->
+  get (data (EVM.sstk s)) (index (EVM.sstk s)) = Some b -> sid (bvalue b) = id ->
+  EVM.offset s = soffset (bvalue b) + cnt -> EVM.offset s <= EVM.zlen (EVM.values s) ->
+  EVM.estep code s = [(EVM.LNext, s1)] -> EVM.estep code s1 = [(EVM.LNext, s2)] ->
+  view (EVM.sstk s2) = view (EVM.sstk s) /\ len (data (EVM.sstk s2)) = len (data (EVM.sstk s))
+  /\ EVM.offset s2 = EVM.offset s /\ EVM.values s2 = EVM.values s /\ EVM.pc s2 = t + 1.
+Proof. exact EVMProofs.evm_tailcall_reuse. Qed.
+Print Assumptions C20_evm_tailcall_reuse_partial.
 
 (* non-vacuity: concrete states meeting the hypotheses.
    Stack: push 1; push 2; save; pop; push 3; restore  -- the saved view [2;1] survives the push of 3,
